@@ -180,6 +180,85 @@ def h_wire_fault(ctx, hold=9):
     return [state, fault, notes]
 
 
+SECOND_FAULTS = ('update-bad', 'open', 'unknown', 'badmarker', 'badlen', 'idle-long', 'notification', 'eof')
+FIRST_ENDS = ('teardown', 'reestablish', 'eof', 'notification', 'update-bad')
+
+
+def h_sessions_in_a_row(ctx, hold=9):
+    """Two sessions of ONE Peer object.  The first is established and ended (an API teardown / reestablish - silent by
+    design when graceful restart was announced -, or by the remote end); the second starts from a connection the peer
+    opened (Peer.handle_connection) or from our own connect, is established, and then meets a fault.  The fault of the
+    SECOND session is answered as the RFC table says: how the first session ended plays no part."""
+    from kits import session as S
+    gr = ctx.pick('graceful-restart', [True, False])
+    first_end = ctx.pick('first-session-ends-by', FIRST_ENDS)
+    second_from = ctx.pick('second-session-from', ['incoming', 'outgoing'])
+    fault = ctx.pick('fault', SECOND_FAULTS)
+    conf = S.mk_conf(local_as=C5.LOCAL_AS, peer_as=C5.PEER_AS, hold=hold, families=('ipv4 unicast',), graceful_restart=120 if gr else None)
+    neighbor = S.neighbor_from(conf)
+    neighbor.api = dict(neighbor.api)
+    neighbor.reset_rib()
+    run = C5.Run()
+    remote_end = first_end if first_end not in ('teardown', 'reestablish') else None
+    phases = [['open', 'keepalive'] + ([remote_end] if remote_end else ['idle'] * 12) + ['eof'], ['open', 'keepalive', fault, 'eof']]
+    state = {'phase': 0, 'i': 0}
+
+    def script():
+        seq = phases[state['phase']]
+        kind = seq[min(state['i'], len(seq) - 1)]
+        state['i'] += 1
+        run.events.append((kind, peer.fsm.state.name))
+        return C5.event_of(kind, hold)
+
+    peer = P.new_peer(neighbor, script)
+    fired = []
+
+    def between(step):
+        if remote_end is None and not fired and peer.fsm.state.name == 'ESTABLISHED' and state['i'] >= 4:
+            fired.append(step)
+            run.injected.append((first_end, step, 'ESTABLISHED'))
+            peer.teardown(4) if first_end == 'teardown' else peer.reestablish()
+
+    r1 = P.drive(peer._run(), max_steps=3000, between=between)
+    w = P.WORLD
+    first = {'result': r1[0], 'fsm': ['%s>%s' % t for t in w.fsm], 'written': ['%s:%d' % t for t in P.written_types()], 'notifications': [(c, sc) for _, c, sc in P.notifications()]}
+    ok1 = r1[0] == 'done' and ('OPENCONFIRM', 'ESTABLISHED') in w.fsm and peer.fsm.state.name == 'IDLE'
+    ctx.check('first-session-established-and-ended', ok1, sig='C10:two-sessions:harness:first-session:%s' % first_end, info=first)
+    if not ok1:
+        return ['first', first]
+    if remote_end is None and gr:
+        ctx.cover('graceful-restart-teardown')
+    # ---- the second session of the same Peer
+    mark_written = len(w.written)
+    mark_fsm = len(w.fsm)
+    state['phase'], state['i'] = 1, 0
+    run.events = []
+    if second_from == 'incoming':
+        class Incoming(P.FakeConn):
+            direction = 'incoming'
+        peer.handle_connection(Incoming(peer, script))
+        ctx.cover('second-session-incoming')
+    r2 = P.drive(peer._run(), max_steps=6000)
+    fsm2 = w.fsm[mark_fsm:]
+    written2 = [(st, x[18]) for st, _, x in w.written[mark_written:] if len(x) >= 19]
+    notes2 = [(x[19], x[20]) for st, _, x in w.written[mark_written:] if len(x) >= 21 and x[18] == 3]
+    info = {'graceful-restart': gr, 'first-session-ended-by': first_end, 'second-session-from': second_from, 'fault': fault, 'result': r2[0],
+            'fsm': ['%s>%s' % t for t in fsm2], 'written': ['%s:%d' % t for t in written2], 'notifications': notes2, 'events': [k for k, _ in run.events]}
+    ctx.check('second-session-finished', r2[0] == 'done', sig='C10:two-sessions:second-session-did-not-finish', info=info)
+    if not ctx.check('second-session-established', ('OPENCONFIRM', 'ESTABLISHED') in fsm2, sig='C10:two-sessions:second-session-not-established:%s-after-%s' % (second_from, first_end), info=info):
+        return ['second-not-established', info]
+    exp = expected(fault, 'ESTABLISHED', hold)
+    if exp[0] == 'notify':
+        ctx.cover('notified')
+        ctx.check('right-notification', len(notes2) == 1 and notes2[0] in exp[1],
+                  sig='C10:two-sessions:%s-in-second-session:want=%s:got=%s' % (fault, '|'.join('%d/%d' % e for e in sorted(exp[1])), ','.join('%d/%d' % g for g in notes2) or 'none'), info=info)
+        ctx.check('notification-is-last', bool(written2) and written2[-1][1] == 3, sig='C10:two-sessions:written-after-notification', info=info)
+    else:
+        ctx.cover('silent')
+        ctx.check('no-notification', not notes2, sig='C10:two-sessions:%s-in-second-session:answered-with-notification' % fault, info=info)
+    return [gr, first_end, second_from, fault, notes2]
+
+
 def units(tier):
     th = tier == 'thorough'
     cov = ('notified', 'silent', 'fault-1', 'fault-2', 'fault-3', 'fault-4', 'fault-5')
@@ -187,6 +266,8 @@ def units(tier):
           Unit('faults/e3-i1', lambda ctx: h_session(ctx, 3, 1), must_cover=('notified', 'local-event'), max_paths=300000, max_seconds=600, weight=80)]
     # `local-as auto`: the first message is read in CONNECT, before our OPEN goes out — a fault there is still answered
     us.append(Unit('faults/auto-as-e3-i0', lambda ctx: h_session(ctx, 3, 0, auto_as=True), must_cover=('notified', 'silent', 'fault-1', 'fault-2', 'fault-5'), max_paths=300000, max_seconds=600, weight=30))
+    us.append(Unit('two-sessions/fault-in-the-second', h_sessions_in_a_row, weight=40, max_seconds=600,
+                   must_cover=('notified', 'silent', 'graceful-restart-teardown', 'second-session-incoming')))
     us.append(Unit('wire/header-faults', h_wire_fault, must_cover=('wire-fault-1-1', 'wire-fault-1-2', 'wire-fault-1-3'), weight=20, max_seconds=600))
     if th:
         us.append(Unit('faults/e5-i0', lambda ctx: h_session(ctx, 5, 0), must_cover=cov, max_paths=2000000, max_seconds=1500, weight=200))
